@@ -120,13 +120,22 @@ fn run_v<V: VringT<GM<()>> + Clone + Send + Sync + 'static>(sim: &Sim, cfg: &Run
         }
         (adapter, nq, masks, order, ls, key)
     });
-    let desc = format!("adapter={adapter:?} vring={} queues={nq} masks={masks:x?} kick_order={order:?} listeners(thread,id)={listeners:?}", std::any::type_name::<V>().rsplit("::").next().unwrap_or(""));
-    crate::runner::set_desc(&desc);
+    let desc0 = format!("adapter={adapter:?} vring={} queues={nq} masks={masks:x?} kick_order={order:?} listeners(thread,id)={listeners:?}", std::any::type_name::<V>().rsplit("::").next().unwrap_or(""));
+    crate::runner::set_desc(&desc0);
     let viol = |clause: &str, keys: String, msg: String| -> ! { sim.violation(Violation::new("C17", clause, keys, msg)) };
+    // a backend that supplies no exit events: id num_queues is still not available to listeners
+    // (its workers cannot be asked to stop; the harness ends them through the epoll fault point)
+    let no_exit = sim.with_w(|t| t.chance(1, 6));
+    if no_exit {
+        sim.probe("backend_without_exit_events");
+    }
+    let desc = format!("{desc0} exit_events={}", !no_exit);
+    crate::runner::set_desc(&desc);
     let mut stub = StubMut::<V, ()>::new(
         StubCfg {
             num_queues: nq,
             queues_per_thread: masks.clone(),
+            exit_events: !no_exit,
             ..Default::default()
         },
         sim,
@@ -262,6 +271,10 @@ fn run_v<V: VringT<GM<()>> + Clone + Send + Sync + 'static>(sim: &Sim, cfg: &Run
     }
     drop(vmm);
     let _ = daemon.wait();
+    if no_exit {
+        sim.abort_workers();
+        sim.settle();
+    }
     drop(daemon);
     close_leaked_exit_consumers(&log);
     drop(listener);
